@@ -68,6 +68,8 @@ func (o Op) String() string {
 		return fmt.Sprintf("%s %s size=%d", o.Call, o.Path, o.Size)
 	case "rename":
 		return fmt.Sprintf("%s %s -> %s", o.Call, o.Path, o.To)
+	case "symlink":
+		return fmt.Sprintf("%s %s -> %s", o.Call, o.Path, o.To)
 	}
 	return fmt.Sprintf("%s(%s) %s", o.Call, o.Kind, o.Path)
 }
@@ -101,9 +103,23 @@ type file struct {
 type FS struct {
 	files map[string]*file
 	dirs  map[string]bool
+	// links: symbolic links below the root, link path -> target path (both relative to the root).
+	// Only links to files are modelled; the parser resolves a link when a path is opened, so
+	// file operations always name the target.
+	links map[string]string
 }
 
-func NewFS() *FS { return &FS{files: map[string]*file{}, dirs: map[string]bool{}} }
+func NewFS() *FS {
+	return &FS{files: map[string]*file{}, dirs: map[string]bool{}, links: map[string]string{}}
+}
+
+// Resolve follows a symbolic link at rel (one level; links to links are not modelled).
+func (fs *FS) Resolve(rel string) string {
+	if t, ok := fs.links[rel]; ok {
+		return t
+	}
+	return rel
+}
 
 // Apply executes one operation.
 func (fs *FS) Apply(o Op) error {
@@ -130,18 +146,35 @@ func (fs *FS) Apply(o Op) error {
 			f.data = resize(f.data, end)
 		}
 		copy(f.data[o.Off:], o.Data)
+	case "symlink":
+		fs.links[o.Path] = o.To
 	case "rename":
+		if t, isLink := fs.links[o.Path]; isLink {
+			// the link itself moves
+			delete(fs.links, o.Path)
+			if old := fs.files[o.To]; old != nil {
+				old.path = ""
+				delete(fs.files, o.To)
+			}
+			fs.links[o.To] = t
+			return nil
+		}
 		f := fs.files[o.Path]
 		if f == nil {
 			return fmt.Errorf("rename of unknown file %s", o.Path)
 		}
 		delete(fs.files, o.Path)
+		delete(fs.links, o.To) // a name that was a link is replaced by the file
 		if old := fs.files[o.To]; old != nil {
 			old.path = ""
 		}
 		f.path = o.To
 		fs.files[o.To] = f
 	case "unlink":
+		if _, isLink := fs.links[o.Path]; isLink {
+			delete(fs.links, o.Path)
+			return nil
+		}
 		f := fs.files[o.Path]
 		if f == nil {
 			return fmt.Errorf("unlink of unknown file %s", o.Path)
@@ -175,7 +208,7 @@ func (fs *FS) Paths() []string {
 
 // File returns the content of a file (nil, false if absent).
 func (fs *FS) File(rel string) ([]byte, bool) {
-	f := fs.files[rel]
+	f := fs.files[fs.Resolve(rel)]
 	if f == nil {
 		return nil, false
 	}
@@ -199,7 +232,12 @@ func (fs *FS) Describe() []string {
 		h := sha256.Sum256(f.data)
 		out = append(out, fmt.Sprintf("%s %dB %s", p, len(f.data), hex.EncodeToString(h[:6])))
 	}
-	return out
+	ls := make([]string, 0, len(fs.links))
+	for l, t := range fs.links {
+		ls = append(ls, l+" -> "+t)
+	}
+	sort.Strings(ls)
+	return append(out, ls...)
 }
 
 // Digest identifies the tree content.
@@ -235,6 +273,19 @@ func (fs *FS) Materialize(dst string) error {
 			mode = 0o644
 		}
 		if err := os.WriteFile(full, f.data, mode|0o600); err != nil {
+			return err
+		}
+	}
+	for l, t := range fs.links {
+		full := filepath.Join(dst, l)
+		if err := os.MkdirAll(filepath.Dir(full), 0o755); err != nil {
+			return err
+		}
+		relT, err := filepath.Rel(filepath.Dir(full), filepath.Join(dst, t))
+		if err != nil {
+			return err
+		}
+		if err := os.Symlink(relT, full); err != nil {
 			return err
 		}
 	}
@@ -793,6 +844,34 @@ func (p *parser) doCall(s string) error {
 		}
 		p.t.Calls[name]++
 		return p.op(Op{Kind: "mkdir", Call: name, Path: r, Mode: parseMode(mode)})
+	case "symlink", "symlinkat":
+		// symlink(target, linkpath) / symlinkat(target, newdirfd, linkpath)
+		tgt, err := str(args[0])
+		if err != nil {
+			return err
+		}
+		var link string
+		if name == "symlinkat" {
+			link, err = p.resolve(args[1], args[2])
+		} else {
+			link, err = p.resolve("", args[1])
+		}
+		if err != nil {
+			return err
+		}
+		rl, under := p.rel(link)
+		if !under {
+			return nil
+		}
+		p.t.Calls[name]++
+		if !filepath.IsAbs(tgt) {
+			tgt = filepath.Join(filepath.Dir(link), tgt)
+		}
+		rt, ut := p.rel(filepath.Clean(tgt))
+		if !ut {
+			return fmt.Errorf("symbolic link %s points outside the reconstructed directory (%s)", link, tgt)
+		}
+		return p.op(Op{Kind: "symlink", Call: name, Path: rl, To: rt})
 	default:
 		// traced only to notice what the replay does not implement
 		if p.touchesRoot(args, ret) {
@@ -828,6 +907,9 @@ func (p *parser) doOpenat(args []string, ret string) error {
 		return nil
 	}
 	p.t.Calls["openat"]++
+	if !flags["O_NOFOLLOW"] {
+		r = p.fs.Resolve(r)
+	}
 	if flags["O_TMPFILE"] || flags["O_PATH"] {
 		return fmt.Errorf("openat flags %s below the root are not supported", args[2])
 	}
